@@ -355,6 +355,9 @@ func runSolver(ctx context.Context, sp solverSpec, timeoutS int, file string) so
 		return solveResult{sp.name, "timeout", text, secs}
 	}
 	_ = err
+	if os.Getenv("GOVC_DEBUG") != "" {
+		fmt.Fprintf(os.Stderr, "govc: solver %s error on %s: %s\n", sp.name, file, firstLines(text, 2))
+	}
 	return solveResult{sp.name, "error", text, secs}
 }
 
